@@ -16,12 +16,20 @@
        prescribe; readable consequences: [dba_phase_gap], [dba_delivery_expected], [dba_postponed_next_phase];
      * the synchronous-round theorems (dba_sync_finish_safe_partial, dba_sync_safe_forever, dba_counter_radius)
        and the all-schedule facts of the first build (second group).
-   Not proved: the statement for the LATER finished() calls of the same run (after the first one the stopped
-   computation skips one ok? broadcast - a quirk kept in the model - so the barrier invariant no longer holds
-   as stated; every later finished() is caused by the dba_end flood and the assignment no longer changes in
-   the synchronous semantics [dba_sync_safe_forever]); these are checked on every run by the correspondence
-   oracle (snapshot of all values at EVERY finished() call). *)
-From PyDcop Require Import Base Net M_Dba P_Dba M_Dba2 P_Dba2.
+     * [dba_finish_safe_all] / [dba_finish_safe_every] (P_Dba3.v): the FULL statement - every finished() of
+       every run, not only the first.  After the first finished() the stopped computation skips one ok?
+       broadcast (a quirk kept in the model), so the barrier invariant no longer holds; instead the
+       frozen-assignment invariant P_Dba3.Fz (every variable of a constraint started and holding a satisfying
+       assignment A, positive weights, every stored or travelling ok? value equal to A, _can_move False in
+       wait_improve mode, only neighbours send) is established in the configuration of the first finished()
+       and preserved by EVERY step [dba_frozen_step], so from then on nobody ever moves again;
+     * [dba_end_flood] (P_Dba4.v): liveness of the dba_end flood in quiescence form, for every schedule and
+       every problem; [dba_finished_kinds], [dba_end_is_last], [dba_finished_count_partial]: the finished()
+       calls of one computation are (stop_condition firings)* followed by at most one dba_end call, after
+       which the computation is silent for ever.
+   Not proved: that stop_condition fires AT MOST ONCE per computation (then the count would be exactly 1 or
+   2); it needs message counting across the broken barrier - see design_notes/C09.md. *)
+From PyDcop Require Import Base Net M_Dba P_Dba M_Dba2 P_Dba2 P_Dba3 P_Dba4.
 
 Theorem dba_sync_finish_safe_partial :
   forall (cs : list constr) (ncs : node -> list nat) (dom : node -> list Z) (infinity maxd : Z)
@@ -196,3 +204,126 @@ Example dba_finish_safe_nonvacuous :
 Proof.
   exact (conj ex_wf (conj eq_refl (conj (proj1 ex_first_finish) (conj (proj1 (proj2 ex_first_finish)) ex_conn1)))).
 Qed.
+
+(* ---- safety at EVERY finished() of every run (P_Dba3.v) *)
+(* the frozen-assignment invariant is preserved by every step of the network, for any satisfying A *)
+Theorem dba_frozen_step :
+  forall cs ncs dom infinity maxd orc0 (A : node -> Z),
+    wf_problem cs ncs -> 0 < infinity -> satisfying cs infinity A ->
+    forall (cf : config dst dmsg) (a : @action),
+      Fz cs ncs orc0 A cf -> Fz cs ncs orc0 A (fst (step (dba_proto cs ncs dom infinity maxd orc0) cf a)).
+Proof. exact Fz_step. Qed.
+
+(* it holds (for the assignment of the first all-zero round) in the configuration in which the first
+   finished() of a run is about to happen *)
+Theorem dba_first_finish_frozen :
+  forall cs ncs dom infinity maxd orc0, wf_problem cs ncs -> 0 < infinity ->
+  forall (sched : list (@action)) (a : @action) (n : node),
+    let P := dba_proto cs ncs dom infinity maxd orc0 in
+    (forall m, ~ In (EvFinished m) (snd (run P sched))) ->
+    In (EvFinished n) (snd (step P (fst (run P sched)) a)) ->
+    (forall x, occurs cs x -> within cs ncs (Z.to_nat maxd) n x) ->
+    exists A, satisfying cs infinity A /\ Fz cs ncs orc0 A (fst (run P sched)).
+Proof. exact first_finish_frozen. Qed.
+
+(* from the first finished() of a run on, whatever the rest of the schedule does, the assignment held by
+   all computations violates no constraint and is the one held at the first finished() *)
+Theorem dba_finish_safe_all :
+  forall cs ncs dom infinity maxd orc0, wf_problem cs ncs -> 0 < infinity ->
+  forall (pre : list (@action)) (a : @action) (rest : list (@action)) (n1 : node),
+    let P := dba_proto cs ncs dom infinity maxd orc0 in
+    (forall m, ~ In (EvFinished m) (snd (run P pre))) ->
+    In (EvFinished n1) (snd (step P (fst (run P pre)) a)) ->
+    (forall x, occurs cs x -> within cs ncs (Z.to_nat maxd) n1 x) ->
+    satisfying cs infinity (held (fst (run P (pre ++ a :: rest))))
+    /\ forall x, occurs cs x ->
+         held (fst (run P (pre ++ a :: rest))) x = held (fst (step P (fst (run P pre)) a)) x.
+Proof. exact finish_safe_all. Qed.
+
+(* C09 as stated: for every schedule, whenever a step makes ANY computation call finished() - the first time
+   or any later time, by its termination counter or because a dba_end message arrived - the assignment held
+   by all computations right after that step violates no constraint (max_distance at or above the hop
+   distance between any two variables that occur in constraints) *)
+Theorem dba_finish_safe_every :
+  forall cs ncs dom infinity maxd orc0, wf_problem cs ncs -> 0 < infinity ->
+  forall (sched : list (@action)) (a : @action) (n : node),
+    let P := dba_proto cs ncs dom infinity maxd orc0 in
+    (forall y x, occurs cs y -> occurs cs x -> within cs ncs (Z.to_nat maxd) y x) ->
+    In (EvFinished n) (snd (step P (fst (run P sched)) a)) ->
+    satisfying cs infinity (held (fst (step P (fst (run P sched)) a))).
+Proof. exact finish_safe_every. Qed.
+
+(* ---- the dba_end flood and the finished() calls of one computation (P_Dba4.v) *)
+(* invariant of every run: for neighbours a, b with a finished, a dba_end of a is in the channel a->b, or in
+   b's pre-start buffer, or b is in mode 'finished'; mode 'finished' implies an earlier finished() call *)
+Theorem dba_flood_invariant :
+  forall cs ncs dom infinity maxd orc0 (sched : list (@action)),
+    FL cs ncs orc0 (fst (run (dba_proto cs ncs dom infinity maxd orc0) sched))
+                   (snd (run (dba_proto cs ncs dom infinity maxd orc0) sched)).
+Proof. exact run_FL. Qed.
+
+(* liveness of the flood: in every quiescent configuration (all channels empty, every variable of a
+   constraint started) in which some computation a has called finished(), every computation connected to a
+   has called finished() and is in mode 'finished' - the dba_end message reached everyone *)
+Theorem dba_end_flood :
+  forall cs ncs dom infinity maxd orc0 (sched : list (@action)),
+    wf_problem cs ncs ->
+    let cf := fst (run (dba_proto cs ncs dom infinity maxd orc0) sched) in
+    let evs := snd (run (dba_proto cs ncs dom infinity maxd orc0) sched) in
+    (forall a b, chan cf a b = []) ->
+    (forall y, occurs cs y -> w_running (nodes cf y) = true) ->
+    forall a, In (EvFinished a) evs ->
+    forall k x, within cs ncs k a x ->
+      In (EvFinished x) evs /\ (nbrs cs ncs x <> [] -> d_mode (st cf x) = FinM).
+Proof. exact end_flood. Qed.
+
+(* every finished() of n is caused by a message delivered to n (not in mode 'finished'): a dba_end (exactly one
+   call, n is left in mode 'finished') or an ok?/improve message (stop_condition; n is NOT left in mode
+   'finished' - the quirk) *)
+Theorem dba_finished_kinds :
+  forall cs ncs dom infinity maxd orc0 (cf : config dst dmsg) (a : @action) (n : node),
+    let P := dba_proto cs ncs dom infinity maxd orc0 in
+    reachable P cf ->
+    In (EvFinished n) (snd (step P cf a)) ->
+    exists s m q, a = Deliver s n /\ chan cf s n = m :: q /\ w_running (nodes cf n) = true
+      /\ d_mode (st cf n) <> FinM
+      /\ ((m = MEnd /\ snd (step P cf a) = [EvFinished n] /\ d_mode (st (fst (step P cf a)) n) = FinM)
+          \/ (m <> MEnd /\ d_mode (st (fst (step P cf a)) n) <> FinM)).
+Proof. exact finished_kinds. Qed.
+
+(* after a computation handled a dba_end it never produces an event again (no hook call at all) *)
+Theorem dba_end_is_last :
+  forall cs ncs dom infinity maxd orc0 (cf : config dst dmsg) (s n : node) (q : list dmsg) (rest : list (@action)),
+    let P := dba_proto cs ncs dom infinity maxd orc0 in
+    chan cf s n = MEnd :: q -> w_running (nodes cf n) = true ->
+    forall e, In e (snd (exec P (fst (step P cf (Deliver s n))) rest)) -> ev_node e <> n.
+Proof. exact end_is_last. Qed.
+
+(* FULL STATEMENT wanted (dba_finished_count): every computation calls finished() at most twice in a run - once
+   if a dba_end stops it, twice if its own stop_condition fired first.  Proved: the part contributed by the
+   dba_end flood is EXACT - the number of finished() calls of n in a whole run is the number made before the
+   first dba_end n handles, plus exactly one (zero if n is already in mode 'finished'), whatever follows.
+   Missing: stop_condition fires at most once per computation (count before the first dba_end <= 1). *)
+Theorem dba_finished_count_partial :
+  forall cs ncs dom infinity maxd orc0 (sched : list (@action)) (s n : node) (q : list dmsg) (rest : list (@action)),
+    let P := dba_proto cs ncs dom infinity maxd orc0 in
+    chan (fst (run P sched)) s n = MEnd :: q -> w_running (nodes (fst (run P sched)) n) = true ->
+    count_fin n (snd (run P (sched ++ Deliver s n :: rest)))
+    = (count_fin n (snd (run P sched))
+       + match d_mode (st (fst (run P sched)) n) with FinM => 0 | _ => 1 end)%nat.
+Proof. exact finished_count_partial. Qed.
+
+(* non-vacuity of dba_finish_safe_all / dba_finish_safe_every / dba_end_flood / dba_finished_count_partial: the
+   two-variable instance run to quiescence - the schedule splits at its first finished() (9th action), every
+   hypothesis holds, both computations call finished() twice (stop_condition, then the other's dba_end), all
+   channels are empty at the end, both are in mode 'finished' and the assignment is satisfying *)
+Example dba_finish_all_nonvacuous :
+  let r := run (dba_proto ex_cs ex_ncs ex_dom 10000 1 ex_orc) ex_sched_q in
+  wf_problem ex_cs ex_ncs
+  /\ (forall y x, occurs ex_cs y -> occurs ex_cs x -> within ex_cs ex_ncs (Z.to_nat 1) y x)
+  /\ forallb (fun a => forallb (fun b => match chan (fst r) a b with [] => true | _ => false end) [0; 1]) [0; 1] = true
+  /\ count_fin 0 (snd r) = 2%nat /\ count_fin 1 (snd r) = 2%nat
+  /\ d_mode (st (fst r) 0) = FinM /\ d_mode (st (fst r) 1) = FinM
+  /\ satisfyingb ex_cs 10000 (held (fst r)) = true
+  /\ ex_sched_q = firstn 8 ex_sched ++ Deliver 0 1 :: (skipn 9 ex_sched ++ [Deliver 0 1; Deliver 1 0]).
+Proof. exact (conj ex_wf (conj ex_all_conn ex_quiescent)). Qed.
